@@ -180,6 +180,9 @@ def _conninv(c, w):
             z3.And(k >= 0, k < reg['len'], sel(added['dom'], sel(oid, sel(reg['arr'], k)))),
             sel(first, sel(reg['arr'], k)) == k))),
         ('LEN', reg['len'] >= 0),
+        # an explicitly added object has not been stored yet: its oid is not among the modified ones
+        ('ADDED-NOT-MODIFIED', All(['oid'], lambda o: z3.Implies(
+            sel(added['dom'], o), sel(c.obj(w.modified).f['bag'], o) == 0))),
     ]
 
 
